@@ -32,6 +32,8 @@ import MpcVerif.Proofs.Equiv
 import MpcVerif.Proofs.Levels
 import MpcVerif.Proofs.PassCP
 import MpcVerif.Proofs.PassPrune
+import MpcVerif.Proofs.PassSC
+import MpcVerif.Proofs.PassCompile
 
 namespace Mpc
 
@@ -215,6 +217,33 @@ output wires are flagged; the invariant holds again afterwards. -/
 theorem C09_prune_preserves (G G' : Graph) (h : G.PInv) (hr : G.prune = some G') :
     G'.PInv ∧ ∀ x, G'.compute x = G.compute x :=
   Graph.prune_preserves G G' h hr
+
+/-- `Compiler.ShortCircuitXORZero` (a producer whose only user is an XOR
+with a Zero wire writes the XOR's output wire directly; the XOR gets a fresh,
+unused output wire; the fan-out guard `NumOutputs() == 1` and the stale
+`Input()` pointers are modelled) preserves the function of every well-formed
+graph, for every input. -/
+theorem C09_shortCircuit_preserves (G : Graph) (h : G.SCInv 0) :
+    G.shortCircuitXORZero.SCBase ∧ ∀ x, G.shortCircuitXORZero.compute x = G.compute x :=
+  Graph.shortCircuitXORZero_preserves G h
+
+/-- `Compiler.Compile` (breadth-first wire numbering from the inputs through
+the wires' output lists, `Gate.Visit/Assign`, output wires numbered last, GMW
+target: stable sort by (Level, AND first)).
+
+FULL STATEMENT (not proved): `G.GWF → G.compile gmw = some C → ∀ x,
+C.compute x = G.compute x`, which needs that the breadth-first numbering is
+injective, reaches every gate with defined inputs, and emits producers before
+consumers.  PROVED: the same conclusion for `compileChecked`, i.e. `compile`
+followed by the executable validation `compileChecks` of exactly these facts
+on the run at hand (ids inverted by `mkInv`, every emitted gate live with
+numbered wires, compiled circuit single-assignment and topological by
+`absRun`, outputs numbered last and driven).  The tie runs `compileChecked`
+on every dumped graph and compares with the real compiled circuit, so a run
+on which the validation failed would show up as a broken tie. -/
+theorem C09_compile_preserves_partial (G : Graph) (gmw : Bool) (C : Circuit) (hwf : G.GWF)
+    (hc : G.compileChecked gmw = some C) : ∀ x, C.compute x = G.compute x :=
+  Graph.compileChecked_preserves G gmw C hwf hc
 
 /-! ### The target axis of the full statement is false on the pinned tree -/
 
